@@ -97,7 +97,8 @@ _round_intr = {"trunc": "rtz", "floor": "rtn", "ceil": "rtp", "round": "rna", "r
 
 
 class Encoder:
-    def __init__(self, module, unwind=1, inline_depth=4, call_hook=None, width_map=None):
+    def __init__(self, module, unwind=1, inline_depth=4, call_hook=None, width_map=None, extern_hook=None):
+        self.extern_hook = extern_hook   # stub for calls to functions that are only declared (I/O, ...): (enc, callee, args, guard) -> value or None
         self.mod = module
         self.unwind = unwind
         self.inline_depth = inline_depth
@@ -371,7 +372,20 @@ class Encoder:
                 out[kx] = first
                 continue
             if kx.startswith("mem:"):
-                raise IRUnsupported("memory state differs at a join")
+                # cell-wise merge of the alloca's contents under the edge guards
+                idxs = set(vals[0]["cells"].keys())
+                for v in vals[1:]:
+                    idxs &= set(v["cells"].keys())
+                cells = {}
+                for i in idxs:
+                    cv = [v["cells"][i] for v in vals]
+                    acc = cv[-1]
+                    if not all(c is cv[0] for c in cv):
+                        for (g, _), c in zip(reversed(envs[:-1]), reversed(cv[:-1])):
+                            acc = self.ite_val(g, c, acc)
+                    cells[i] = acc
+                out[kx] = {"n": first["n"], "ety": first["ety"], "cells": cells}
+                continue
             acc = vals[-1]
             for (g, _), v in zip(reversed(envs[:-1]), reversed(vals[:-1])):
                 acc = self.ite_val(g, v, acc)
@@ -453,12 +467,18 @@ class Encoder:
                     r = a.t
             elif so == T.BOOL:
                 r = T.eq(T.extract(a.t, 0, 0), T.const_bv(1, 1))
+            elif so[1] == T.width(a.t):
+                r = a.t                      # widths coincide after width re-interpretation
             elif op == "zext":
+                if so[1] < T.width(a.t):
+                    raise IRUnsupported("zext to a narrower re-interpreted width")
                 r = T.zext(a.t, so[1])
             elif op == "sext":
+                if so[1] < T.width(a.t):
+                    raise IRUnsupported("sext to a narrower re-interpreted width")
                 r = T.sext(a.t, so[1])
             else:
-                r = T.trunc(a.t, so[1]) if so[1] < T.width(a.t) else a.t
+                r = T.trunc(a.t, so[1]) if so[1] < T.width(a.t) else T.zext(a.t, so[1])
             env[ins.res] = Val(r, a.p)
             return
         if op in ("fpext", "fptrunc"):
@@ -553,7 +573,13 @@ class Encoder:
         if mem is None:
             raise IRUnsupported("store to non-alloca " + p.obj)
         if not T.is_const(p.idx):
-            raise IRUnsupported("store at symbolic index")
+            if len(mem["cells"]) != mem["n"]:
+                raise IRUnsupported("store at symbolic index into a partially initialised alloca")
+            self.add_ub(guard, T.not_(T.bvcmp("ult", p.idx, T.const_bv(mem["n"], 64))), "store out of bounds")
+            mem = dict(mem)
+            mem["cells"] = {i: self.ite_val(T.eq(p.idx, T.const_bv(i, 64)), v, c) for i, c in mem["cells"].items()}
+            env["mem:" + p.obj] = mem
+            return
         i = p.idx.attr
         if i >= mem["n"]:
             self.add_ub(guard, T.TRUE, "store out of bounds")
@@ -675,6 +701,21 @@ class Encoder:
         if callee.startswith("llvm.expect"):
             env[ins.res] = args[0]
             return
+        if callee.startswith("llvm.memset"):
+            ptr, val, ln = args[0], args[1], args[2]
+            mem = env.get("mem:" + ptr.obj) if isinstance(ptr, Ptr) else None
+            if mem is None or not (T.is_const(ptr.idx) and T.is_const(ln.t)) or not re.match(r"i8$", mem["ety"]):
+                raise IRUnsupported("memset shape")
+            mem = dict(mem)
+            cells = dict(mem["cells"])
+            for i in range(ptr.idx.attr, ptr.idx.attr + ln.t.attr):
+                if i >= mem["n"]:
+                    self.add_ub(guard, T.TRUE, "memset out of bounds")
+                    break
+                cells[i] = Val(val.t, val.p)
+            mem["cells"] = cells
+            env["mem:" + ptr.obj] = mem
+            return
         if callee.startswith("llvm.lifetime") or callee.startswith("llvm.dbg") or \
                 callee.startswith("llvm.experimental.noalias"):
             return
@@ -738,6 +779,12 @@ class Encoder:
                     raise IRUnsupported("void callee used as value")
                 env[ins.res] = r
             return
+        if self.extern_hook is not None:
+            r = self.extern_hook(self, callee, args, guard)
+            if r is not None:
+                if ins.res:
+                    env[ins.res] = r
+                return
         base = callee.rstrip("fl") if callee not in LIBM_UF else callee
         for cand in (callee, callee[:-1]):
             if cand in LIBM_UF and ins.ty in FP_TYPES:
@@ -854,10 +901,10 @@ def parse_global_init(text):
     return None
 
 
-def encode_kernel(module, fname, arg_terms, unwind=1, inline_depth=4, call_hook=None, width_map=None):
-    e = Encoder(module, unwind=unwind, inline_depth=inline_depth, call_hook=call_hook, width_map=width_map)
+def encode_kernel(module, fname, arg_terms, unwind=1, inline_depth=4, call_hook=None, width_map=None, extern_hook=None):
+    e = Encoder(module, unwind=unwind, inline_depth=inline_depth, call_hook=call_hook, width_map=width_map, extern_hook=extern_hook)
     f = module.functions[fname]
-    r = e.encode(fname, [Val(a) for a in arg_terms])
+    r = e.encode(fname, [a if isinstance(a, (Val, Ptr, Agg)) else Val(a) for a in arg_terms])
     ub = T.or_(*[c for c, _ in e.ub_items]) if e.ub_items else T.FALSE
     unw = T.or_(*e.unwind_items) if e.unwind_items else T.FALSE
     stats = {"instructions": e.ninstr, "ops": sorted(e.ops), "callees": sorted(e.callees)}
